@@ -22,6 +22,11 @@ centering "P", "auto" and the explicit centering.  Monitors:
   * structure-factor-model       (auxiliary) F == float64 reference (1/V) sum_j occ_j f_j(g) DWF_j(g) w(g) exp(-2 pi i h.x_j)
                                  assembled here (catches phase sign, volume, Debye-Waller and cut-off errors);
   * lazy-build                   (auxiliary) build(lazy=True).compute() == build(lazy=False).
+  * atom-order-invariance        F of the same crystal with the atom list (and per-atom sigmas/occupancies) permuted is
+                                 unchanged; per-element / per-atom values contain exact zeros, ones and repeated values;
+  * joint-compute                2-4 lazy results (this crystal, a rigidly displaced copy, a copy with other elements, the
+                                 translated copy; structure factors and 3-D potentials) evaluated in ONE dask.compute call
+                                 == their separate evaluation (no dask key collisions between objects).
 """
 import math
 
@@ -37,8 +42,9 @@ RULE = ("cell cubic/orthorhombic/hexagonal/triclinic (2.5-7 A); true centering P
         "reflections; centering argument auto/explicit/P; lattice translation in [-3,3]^3 or up to 12; float64 (75%) or "
         "float32; non-trivial = >= 2 atoms or a centred lattice, >= 100 reflections; distinct = distinct case signature")
 CLAUSES = ["friedel", "forbidden-reflections-zero", "reflection-condition", "potential-real", "potential-fourier-sum",
-           "potential-periodic", "lattice-translation", "structure-factor-model", "lazy-build", "centered-lattices-exercised"]
-QUICK = dict(n=80, time=45)
+           "potential-periodic", "lattice-translation", "structure-factor-model", "lazy-build", "centered-lattices-exercised",
+           "atom-order-invariance", "joint-compute", "zero-sigma-mixed-exercised"]
+QUICK = dict(n=64, time=45)
 THOROUGH = dict(n=31250, time=480, shards=16)
 ASSUMPTIONS = ["centring names follow the International Tables (A: (0,1/2,1/2), B: (1/2,0,1/2), C: (1/2,1/2,0))",
                "a lattice whose translation-related atoms carry different per-atom sigmas/occupancies is primitive"]
@@ -98,31 +104,43 @@ def gen(rng, tier):
     used = sorted({els[i] for i, _ in basis})
     sk = str(rng.choice(["none", "scalar", "element", "aniso", "aniso-element", "atom", "atom-aniso", "atom-free"]))
     nt = len(TRANSLATIONS[lattice])
+
+    def sig(size=None):
+        """sigmas with exact zeros (atoms at rest) and repeated values mixed in"""
+        v = np.atleast_1d(rng.uniform(0.02, 0.2, size=size)).round(4)
+        v = np.where(rng.random(v.shape) < 0.35, 0.0, v)
+        if v.ndim == 2:                          # whole atoms at rest as well as single components
+            v[rng.random(len(v)) < 0.3] = 0.0
+        if v.size > 1 and rng.random() < 0.2:
+            v.flat[-1] = v.flat[0]
+        return v.tolist()
     if sk == "none":
         sigma = 0.0
     elif sk == "scalar":
         sigma = float(rng.uniform(0.03, 0.2))
     elif sk == "element":
-        sigma = {e: float(rng.uniform(0.0, 0.2)) for e in els}
+        sigma = {e: sig()[0] for e in els}
     elif sk == "aniso":
         sigma = ["tuple", rng.uniform(0.02, 0.2, size=3).round(4).tolist()]
     elif sk == "aniso-element":
-        sigma = {e: rng.uniform(0.02, 0.2, size=3).round(4).tolist() for e in els}
+        sigma = dict(zip(els, sig((2, 3))))
     elif sk == "atom":
-        sigma = ["basis", rng.uniform(0.0, 0.2, size=nb).round(4).tolist()]
+        sigma = ["basis", sig(nb)]
     elif sk == "atom-aniso":
-        sigma = ["basis", rng.uniform(0.0, 0.2, size=(nb, 3)).round(4).tolist()]
+        sigma = ["basis", sig((nb, 3))]
     else:       # one value per atom, not repeated by the lattice translations: the decorated crystal is primitive
-        sigma = ["atoms", rng.uniform(0.02, 0.2, size=nb * nt).round(4).tolist()]
+        sigma = ["atoms", sig(nb * nt)]
     ok = str(rng.choice(["one", "one", "scalar", "element", "atom", "atom-free"]))
     if ok == "one":
         occ = 1.0
     elif ok == "scalar":
         occ = float(rng.uniform(0.3, 1.0))
     elif ok == "element":
-        occ = {e: float(rng.uniform(0.3, 1.0)) for e in els}
+        occ = {e: float(rng.choice([1.0, 0.0, float(rng.uniform(0.3, 1.0))])) for e in els}
+        if not any(occ[e] > 0 for e in used):
+            occ[used[0]] = 1.0
     elif ok == "atom":
-        occ = ["basis", rng.uniform(0.3, 1.0, size=nb).round(4).tolist()]
+        occ = ["basis", np.where(rng.random(nb) < 0.3, 1.0, rng.uniform(0.3, 1.0, size=nb)).round(4).tolist()]
     else:
         occ = ["atoms", rng.uniform(0.3, 1.0, size=nb * nt).round(4).tolist()]
     vol = abs(float(np.linalg.det(np.array(cell))))
@@ -153,6 +171,15 @@ def fixed_cases(tier):
                 "sigma": 0.07 if i % 2 else 0.0, "occupancy": 1.0, "parametrization": "lobato", "cutoff": "taper",
                 "g_max": 2.2, "centering_arg": arg, "shift": [1, -2, 3], "per_atom_shift": False, "shuffle_seed": i,
                 "supercell": [2, 1, 1] if lattice == "P" else None, "lazy": bool(i % 2), "precision": "float64"})
+    # rocksalt with one sub-lattice at rest: per-element / per-atom / anisotropic sigmas containing exact zeros, in three
+    # different atom orders (an atom at rest listed after a vibrating one and vice versa)
+    nacl = {"cell_kind": "cubic", "cell": [[5.64, 0, 0], [0, 5.64, 0], [0, 0, 5.64]], "lattice": "F", "elements": ["Na", "Cl"],
+            "basis": [[0, [0.0, 0.0, 0.0]], [1, [0.5, 0.5, 0.5]]], "used": ["Cl", "Na"], "occupancy": 1.0,
+            "parametrization": "lobato", "cutoff": "taper", "g_max": 2.0, "shift": [2, 0, -1], "per_atom_shift": True,
+            "supercell": None, "precision": "float64"}
+    for j, sg in enumerate([{"Na": 0.0, "Cl": 0.12}, {"Na": 0.1, "Cl": 0.0}, ["basis", [0.0, 0.12]], ["basis", [0.09, 0.0]],
+                            {"Na": [0.0, 0.0, 0.0], "Cl": [0.1, 0.05, 0.02]}, ["basis", [[0.1, 0.0, 0.03], [0.0, 0.0, 0.0]]]]):
+        out.append(dict(nacl, sigma=sg, shuffle_seed=100 + j, centering_arg="auto" if j % 2 else "explicit", lazy=bool(j % 2)))
     return out
 
 
@@ -303,6 +330,30 @@ def _check(ctx, case):
     Fref = reference_F(atoms, hklP, s_arr, o_arr, case)
     ctx.close(FP, Fref, "structure-factor-model", rtol=0, atol=(4 * tol if f32 else 1e-9 * fmax), n=len(hklP))
 
+    # ---------------- the atom order is immaterial (per-atom values move with their atoms)
+    flat = np.asarray(s_arr, dtype=float).reshape(len(atoms), -1)
+    at_rest = (flat == 0).all(axis=1)
+    if at_rest.any() and not at_rest.all():
+        first_moving = int(np.argmax(~at_rest))
+        ctx.expect(True, "zero-sigma-mixed-exercised")
+        ctx.monitor("rest-atom-after-vibrating-atom", int(at_rest[first_moving:].any()))
+
+    def permuted():
+        prng = np.random.default_rng(case["shuffle_seed"] + 7)
+        for perm in (np.arange(len(atoms))[::-1], prng.permutation(len(atoms))):
+            kwp = dict(kw)
+            for key in ("thermal_sigma", "occupancy"):
+                if isinstance(kw[key], np.ndarray):
+                    kwp[key] = kw[key][perm]
+            aQ = StructureFactor(atoms[perm], centering="P", **kwp).build(lazy=False)
+            ctx.expect(np.array_equal(np.asarray(aQ.hkl), hklP), "atom-order-invariance", what="hkl differ")
+            ctx.close(values(aQ), FP, "atom-order-invariance", rtol=0, atol=(4 * tol if f32 else 1e-9 * fmax),
+                      perm=perm.tolist())
+    if len(atoms) > 1:
+        attempt(ctx, "permuted", permuted)
+    else:
+        ctx.clauses["atom-order-invariance"] += 0
+
     forb = ~allowed(hklP, true_lattice)
     if true_lattice != "P":
         ctx.expect(forb.any(), "centered-lattices-exercised", what="no forbidden reflection within g_max")
@@ -433,3 +484,35 @@ def _check(ctx, case):
             ctx.close(values(aT), FX, "lattice-translation", rtol=0, atol=tol * (1 + nmax) * (4 if f32 else 10),
                       shift=case["shift"], per_atom=case["per_atom_shift"])
     attempt(ctx, "translated", translated)
+
+
+    # ---------------- several lazy objects in one dask computation
+    def joint():
+        import dask
+        cellm = np.asarray(atoms.cell.array, dtype=np.float64)
+        displaced = atoms.copy()
+        displaced.positions = displaced.positions + np.array([0.31, 0.17, 0.05]) @ cellm
+        swapped = atoms.copy()
+        swapped.symbols = [{case["elements"][0]: case["elements"][1], case["elements"][1]: case["elements"][0]}[x]
+                           for x in atoms.get_chemical_symbols()]
+        moved = atoms.copy()
+        moved.positions = moved.positions + np.array(case["shift"]) @ cellm
+        swap = {case["elements"][0]: case["elements"][1], case["elements"][1]: case["elements"][0]}
+        kw_swapped = {k: ({swap[e]: v for e, v in val.items()} if isinstance(val, dict) else val) for k, val in kw.items()}
+        builders = [StructureFactor(a, centering="P", **(kw_swapped if a is swapped else kw))
+                    for a in (atoms, displaced, swapped, moved)]
+        builders = builders[: 2 + case["shuffle_seed"] % 3]
+        lazies = [b.build(lazy=True) for b in builders]
+        ctx.expect(all(x.is_lazy for x in lazies), "joint-compute", what="lazy build returned eager arrays")
+        together = dask.compute(*[x.array for x in lazies], scheduler="synchronous")
+        pots = dask.compute(*[x.get_potential_3d() for x in lazies[:2]], scheduler="synchronous")
+        for i, (b, got) in enumerate(zip(builders, together)):
+            sep = values(b.build(lazy=False))
+            ctx.close(np.asarray(got), sep, "joint-compute", rtol=0, atol=(tol if f32 else 1e-13 * fmax), member=i,
+                      n_objects=len(builders))
+        for i, (b, got) in enumerate(zip(builders[:2], pots)):
+            sep = np.asarray(b.build(lazy=False).get_potential_3d())
+            ctx.close(np.asarray(got), sep, "joint-compute", rtol=0, atol=(1e-4 if f32 else 1e-10) * float(np.abs(sep).max()),
+                      member=i, what="potential")
+        ctx.monitor("joint-computations")
+    attempt(ctx, "joint-compute", joint)
